@@ -429,10 +429,23 @@ fn check_arch(db: &LayoutDb, x: &Arch, idx: usize, seed: u64, sink: &Sink) {
 			}
 		}
 		if let Outcome::Ok(g1) = real::read_slp(&built.bytes, false, with_hash) {
+			// (now and then the second write happens more than a second later: the bytes do not depend on the clock)
+			if idx % 20 == 3 || (!x.game.meta && idx % 7 == 2) {
+				std::thread::sleep(std::time::Duration::from_millis(1100));
+			}
 			if let Outcome::Ok(again) = real::write_slpp(g1, comp) {
 				if again != arch {
 					report("deterministic", "mismatch", "writing the same game twice gives different bytes".into());
 				}
+			}
+		}
+		// a sink that fails within the last bytes of the archive: the writer reports the error
+		if let Outcome::Ok(gf) = real::read_slp(&built.bytes, false, with_hash) {
+			let limit = arch.len() - 1 - (idx * 37) % arch.len().min(1600);
+			match real::fail_write_slpp_outcome(gf, comp, limit) {
+				Outcome::Err(_) => {}
+				Outcome::Ok(n) => report("write_error_lost", "mismatch", format!("the sink failed after {} of {} bytes ({} taken) and the writer reported success", limit, arch.len(), n)),
+				o2 => report("write_error_lost", o2.kind(), o2.detail()),
 			}
 		}
 		// JSON entries = JSON rendering of what the reader reconstructs from the raw entries
@@ -578,7 +591,14 @@ fn check_arch(db: &LayoutDb, x: &Arch, idx: usize, seed: u64, sink: &Sink) {
 			}
 			o2 => report("crafted_read", o2.kind(), o2.detail()),
 		},
-		(Outcome::Err(_), "err") => {}
+		(Outcome::Err(_), "err") => {
+			// rejected: also with the reader's skip-frames option
+			if intact {
+				if let Outcome::Ok(_) = real::read_slpp(&bytes, true) {
+					report("version_gate", "mismatch", format!("accepted with the skip-frames option although the model rejects it (format version {:?})", x.version));
+				}
+			}
+		}
 		(Outcome::Ok(_), "err") => report(
 			if intact { "version_gate" } else { "cut_accepted" },
 			"mismatch",
